@@ -210,6 +210,75 @@ def _fibers(v, d: int, fn, keepdim: bool = False):
     return res
 
 
+def _at(v, idx):
+    for i in idx:
+        v = v[i]
+    return v
+
+
+def _build_from(shape: List[int], fn, prefix=()):
+    """nested list of the given shape with entry fn(index tuple)"""
+    if not shape:
+        return fn(tuple(prefix))
+    return [_build_from(shape[1:], fn, tuple(prefix) + (i,)) for i in range(shape[0])]
+
+
+def _regular(v) -> List[int]:
+    """shape of a nested list, refusing ragged values"""
+    shp = _shape(v)
+
+    def ok(t, level):
+        if level == len(shp):
+            return not isinstance(t, list)
+        return isinstance(t, list) and len(t) == shp[level] and all(ok(x, level + 1) for x in t)
+
+    if not ok(v, 0):
+        raise Unfoldable("ragged value")
+    return shp
+
+
+def _permute(v, perm: List[int]):
+    shp = _regular(v)
+    rank = len(shp)
+    if len(perm) != rank or any(isinstance(a, bool) or not isinstance(a, int) or not (-rank <= a < rank) for a in perm):
+        raise Unfoldable("permute arguments")
+    perm = [a % rank for a in perm]
+    if sorted(perm) != list(range(rank)):
+        raise Unfoldable("permute arguments")
+    if 0 in shp:
+        raise Unfoldable("permute of an empty tensor")
+
+    def entry(idx):
+        old = [0] * rank
+        for j, a in enumerate(perm):
+            old[a] = idx[j]
+        return _at(v, old)
+
+    return _build_from([shp[a] for a in perm], entry)
+
+
+def _map_fibres(v, d: int, fn):
+    """replace every 1-D fibre along axis d by fn(fibre) (same or different length)"""
+    shp = _regular(v)
+    rank = len(shp)
+    if rank == 0 or isinstance(d, bool) or not isinstance(d, int) or not (-rank <= d < rank):
+        raise Unfoldable("axis out of range")
+    d %= rank
+    perm = [a for a in range(rank) if a != d] + [d]
+    moved = _permute(v, perm) if rank > 1 else v
+
+    def rows(t, level):
+        if level == rank - 1:
+            return list(fn(list(t)))
+        return [rows(x, level + 1) for x in t]
+
+    res = rows(moved, 0)
+    if rank == 1:
+        return res
+    inv = [perm.index(a) for a in range(rank)]
+    return _permute(res, inv)
+
+
 def _reshape(v, dims: List[int]):
     flat = _flat(v)
     dims = list(dims)
@@ -465,6 +534,8 @@ class Folder:
             if isinstance(node.op, ast.Add) and isinstance(a, PySeq) and isinstance(b, PySeq):
                 return PySeq(list(a) + list(b))
             f = ops.get(type(node.op))
+            if isinstance(node.op, ast.MatMult):
+                return self.fold(ast.Call(func=ast.Attribute(value=ast.Name(id="torch", ctx=ast.Load()), attr="matmul", ctx=ast.Load()), args=[node.left, node.right], keywords=[]))
             if f is None:
                 raise Unfoldable("operator")
             try:
@@ -538,8 +609,9 @@ class Folder:
             if isinstance(sl, ast.Slice):
                 lo = self.fold(sl.lower) if sl.lower is not None else None
                 hi = self.fold(sl.upper) if sl.upper is not None else None
-                if isinstance(base, (list, str)) and sl.step is None and all(v is None or (isinstance(v, int) and not isinstance(v, bool)) for v in (lo, hi)):
-                    return base[lo:hi]
+                st_ = self.fold(sl.step) if sl.step is not None else None
+                if isinstance(base, (list, str)) and all(v is None or (isinstance(v, int) and not isinstance(v, bool)) for v in (lo, hi, st_)) and (st_ is None or st_ > 0 or (isinstance(base, (PySeq, str)) and st_ != 0)):
+                    return base[lo:hi:st_]
                 raise Unfoldable("slice")
             i = self.fold(sl)
             if isinstance(base, list) and isinstance(i, int) and not isinstance(i, bool) and -len(base) <= i < len(base):
@@ -682,7 +754,23 @@ class Folder:
                     raise Unfoldable("is_complex of a non-tensor")
                 return _anyc(v)
             if m in ("to", "float", "int", "long", "double", "type", "clone", "contiguous", "item", "detach", "cpu", "cuda"):
-                return self.fold(node.func.value)
+                v = self.fold(node.func.value)
+                to_int = m in ("int", "long") or (m in ("to", "type") and any(unparse(a_).split(".")[-1] in ("long", "int", "int8", "int16", "int32", "int64", "uint8") for a_ in list(node.args) + [k.value for k in node.keywords]))
+                if to_int and not isinstance(v, PySeq):
+                    # conversion to an integer type truncates toward zero
+
+                    def _tr(x):
+                        if isinstance(x, bool):
+                            return int(x)
+                        if isinstance(x, int):
+                            return x
+                        if isinstance(x, float) and x == x and abs(x) != float("inf"):
+                            return int(x)
+                        raise Unfoldable("integer conversion of a non-finite or complex value")
+
+                    r_ = _ew(_tr, v)
+                    return r_
+                return v
             if m == "size" and len(node.args) <= 1 and not node.keywords:
                 dims = self.fold(ast.Attribute(value=node.func.value, attr="shape", ctx=ast.Load()))
                 if not node.args:
@@ -729,7 +817,45 @@ class Folder:
                     return [v]
                 if isinstance(v, list) and not any(isinstance(x, list) for x in v) and d in (1, -1):
                     return [[x] for x in v]
+                if isinstance(v, list) and not isinstance(v, PySeq) and isinstance(d, int) and not isinstance(d, bool):
+                    shp_ = _regular(v)
+                    if -(len(shp_) + 1) <= d <= len(shp_) and 0 not in shp_:
+                        d_ = d % (len(shp_) + 1)
+                        return _reshape(v, shp_[:d_] + [1] + shp_[d_:])
                 raise Unfoldable("unsqueeze")
+            if m in ("transpose", "swapaxes") and len(node.args) == 2 and not node.keywords:
+                v = self.fold(node.func.value)
+                a_, b_ = self.fold(node.args[0]), self.fold(node.args[1])
+                if isinstance(v, list) and not isinstance(v, PySeq) and all(isinstance(t_, int) and not isinstance(t_, bool) for t_ in (a_, b_)):
+                    rank_ = _depth(v)
+                    if -rank_ <= a_ < rank_ and -rank_ <= b_ < rank_:
+                        perm_ = list(range(rank_))
+                        perm_[a_ % rank_], perm_[b_ % rank_] = perm_[b_ % rank_], perm_[a_ % rank_]
+                        return _permute(v, perm_)
+                raise Unfoldable("transpose arguments")
+            if m == "permute" and node.args and not node.keywords:
+                v = self.fold(node.func.value)
+                perm_ = []
+                for a_ in node.args:
+                    t_ = self.fold(a_.value) if isinstance(a_, ast.Starred) else self.fold(a_)
+                    perm_ += list(t_) if isinstance(t_, list) else [t_]
+                if isinstance(v, list) and not isinstance(v, PySeq):
+                    return _permute(v, perm_)
+                raise Unfoldable("permute of a non-tensor")
+            if m == "cumsum" and not isinstance(self._peek(node.func.value), PySeq) and (len(node.args) == 1 or (not node.args and len(node.keywords) == 1 and node.keywords[0].arg == "dim")):
+                v = self.fold(node.func.value)
+                d = self.fold(node.args[0] if node.args else node.keywords[0].value)
+                if isinstance(v, list):
+
+                    def _cs(f_):
+                        out_, tot_ = [], 0
+                        for x_ in f_:
+                            tot_ = tot_ + x_
+                            out_.append(tot_)
+                        return out_
+
+                    return _map_fibres(v, d, _cs)
+                raise Unfoldable("cumsum of a non-tensor")
             if (m in ("view", "reshape") and len(node.args) == 1 and isinstance(node.args[0], ast.UnaryOp) and unparse(node.args[0]) == "-1") or (m == "flatten" and not node.args):
                 return _flat(self.fold(node.func.value))
             if m in ("any", "all") and (node.args or node.keywords):
@@ -779,6 +905,18 @@ class Folder:
                 cnt = [self.fold(a) for a in node.args]
                 if isinstance(v, list) and not any(isinstance(x, list) for x in v) and len(cnt) == 1 and isinstance(cnt[0], int) and not isinstance(cnt[0], bool) and not [k for k in node.keywords if not (k.arg == "dim" and self.fold(k.value) in (0, -1))]:
                     return [x for x in v for _ in range(cnt[0])] if m == "repeat_interleave" else list(v) * cnt[0]
+                if m == "repeat_interleave" and isinstance(v, list) and not isinstance(v, PySeq) and len(cnt) == 1 and isinstance(cnt[0], int) and not isinstance(cnt[0], bool) and cnt[0] >= 1 and len(node.keywords) == 1 and node.keywords[0].arg == "dim":
+                    d_ = self.fold(node.keywords[0].value)
+                    return _map_fibres(v, d_, lambda f_: [x for x in f_ for _ in range(cnt[0])])
+                if m == "repeat" and isinstance(v, list) and not isinstance(v, PySeq) and not node.keywords:
+                    sizes_ = []
+                    for a_, c_ in zip(node.args, cnt):
+                        sizes_ += list(c_) if isinstance(c_, list) else [c_]
+                    shp_ = _regular(v)
+                    if len(sizes_) >= len(shp_) and all(isinstance(c_, int) and not isinstance(c_, bool) and 1 <= c_ <= 64 for c_ in sizes_) and 0 not in shp_:
+                        shp2_ = [1] * (len(sizes_) - len(shp_)) + shp_
+                        base_ = _reshape(v, shp2_)
+                        return _build_from([a_ * b_ for a_, b_ in zip(shp2_, sizes_)], lambda idx: _at(base_, [i_ % n_ for i_, n_ in zip(idx, shp2_)]))
                 raise Unfoldable(f"method {m} beyond 1-D")
             if m in ("clip", "clamp", "log1p", "minimum", "maximum", "flip", "fliplr", "flipud", "angle"):
                 fake = ast.Call(func=ast.Attribute(value=ast.Name(id="torch", ctx=ast.Load()), attr=m, ctx=ast.Load()), args=[node.func.value] + list(node.args), keywords=list(node.keywords))
@@ -932,13 +1070,32 @@ class Folder:
                 return self.fold(fake)
             if short in ("matmul", "mm") and len(node.args) == 2:
                 a, b = self.fold(node.args[0]), self.fold(node.args[1])
-                if isinstance(a, list) and isinstance(b, list) and a and b and isinstance(b[0], list):
-                    rows = a if isinstance(a[0], list) else [a]
+
+                def _mm(a, b):
+                    if not (isinstance(a, list) and isinstance(b, list) and a and b) or isinstance(a, PySeq) or isinstance(b, PySeq):
+                        raise Unfoldable("matmul operands")
+                    sa, sb = _regular(a), _regular(b)
+                    if len(sa) > 2 or len(sb) > 2:
+                        if short == "mm":
+                            raise Unfoldable("mm of batched operands")
+                        if len(sa) > 2 and len(sb) > 2 and len(sa) == len(sb) and sa[0] == sb[0]:
+                            return [_mm(x, y) for x, y in zip(a, b)]
+                        if len(sa) > 2 and len(sb) <= 2:
+                            return [_mm(x, b) for x in a]
+                        if len(sb) > 2 and len(sa) == 2:
+                            return [_mm(a, y) for y in b]
+                        raise Unfoldable("matmul broadcasting")
+                    if len(sb) == 1:
+                        if sa[-1] != sb[0]:
+                            raise Unfoldable("matmul shapes")
+                        return sum(x * y for x, y in zip(a, b)) if len(sa) == 1 else [sum(x * y for x, y in zip(r_, b)) for r_ in a]
+                    rows = a if len(sa) == 2 else [a]
                     if any(len(r_) != len(b) for r_ in rows):
                         raise Unfoldable("matmul shapes")
                     out = [[sum(r_[t] * b[t][j] for t in range(len(b))) for j in range(len(b[0]))] for r_ in rows]
-                    return out if isinstance(a[0], list) else out[0]
-                raise Unfoldable("matmul operands")
+                    return out if len(sa) == 2 else out[0]
+
+                return _mm(a, b)
             if short in ("all", "any", "numel", "dim") and len(node.args) == 1 and not node.keywords:
                 v = self.fold(node.args[0])
 
@@ -964,6 +1121,15 @@ class Folder:
             if short == "fmod" and len(node.args) == 2:
                 a, b = self.fold(node.args[0]), self.fold(node.args[1])
                 return _ew(lambda x, y: math.fmod(x, y) if isinstance(x, float) or isinstance(y, float) else (x % y if x >= 0 else -((-x) % y)), a, b)
+            if short == "where" and nm.startswith("torch.") and len(node.args) == 3 and not node.keywords:
+                c_, a_, b_ = (self.fold(x_) for x_ in node.args)
+                if any(isinstance(x_, PySeq) for x_ in (c_, a_, b_)):
+                    raise Unfoldable("where on python sequences")
+                try:
+                    pair_ = _ew(lambda x, y: (x, y), a_, b_)
+                    return _ew(lambda c, ab: ab[0] if c else ab[1], c_, pair_)
+                except TypeError as exc:
+                    raise Unfoldable(str(exc))
             if short in ("where", "nonzero") and len(node.args) == 1 and all(k.arg == "as_tuple" for k in node.keywords):
                 v = self.fold(node.args[0])
                 as_tuple = any(self.fold(k.value) is True for k in node.keywords)
